@@ -21,8 +21,8 @@ import (
 	"github.com/dominant-strategies/go-quai/common"
 	"github.com/dominant-strategies/go-quai/core/rawdb"
 	"github.com/dominant-strategies/go-quai/core/types"
-	"github.com/dominant-strategies/go-quai/params"
 	"github.com/dominant-strategies/go-quai/ethdb"
+	"github.com/dominant-strategies/go-quai/params"
 	"github.com/dominant-strategies/go-quai/trie"
 )
 
@@ -451,7 +451,6 @@ func runC07(seed uint64, n int, outDir string, replay string) {
 	o.Close(nil)
 }
 
-
 // c07OwnBlockOracles: properties of a block the node assembled from its own pool that can be read off the block
 // itself, whatever its validator later says
 func c07OwnBlockOracles(o *h.Out, w *cwWorld, blk *types.WorkObject) {
@@ -470,7 +469,6 @@ func c07OwnBlockOracles(o *h.Out, w *cwWorld, blk *types.WorkObject) {
 		}
 	}
 }
-
 
 // c05ReceiptOracle: the outbound ETXs recorded for each transaction (its receipt) are the ones that transaction
 // emitted - they carry its hash as origin - and, in order, they are exactly the non-reward ETXs the block commits to
